@@ -126,7 +126,7 @@ def execute(case):
     verdicts_by_draw = {}
     for draw in case['draws']:
         res = {}
-        for ep in entry.ENTRY_POINTS:
+        for ep in prep.entry_points():
             try:
                 x = H.build_obj(case['x'])
             except Exception as e:      # noqa
@@ -160,6 +160,8 @@ def execute(case):
             continue
         # rejection shape
         for ep in ('die_if_unbearable', 'typehint_die', 'param', 'return'):
+            if ep not in res:
+                continue        # (TypeHint route not applicable to this hint, see entry.Prepared.entry_points)
             o = res[ep]
             want = {'die_if_unbearable': conf.violation_door_type, 'typehint_die': conf.violation_door_type,
                     'param': conf.violation_param_type, 'return': conf.violation_return_type}[ep]
